@@ -992,14 +992,15 @@ func (g *Gen) genC04(n int) error {
 			// other at ONE path: the file is the second one's
 			g.setMode()
 			var sg [2]string
-			for k, w := range []string{"apple", "grape"} {
+			// ("apple"/"blue" and "bpple"/"clue": the two dictionaries have the same shape, the files the same length)
+			for k, w := range []string{"apple", "bpple"} {
 				b := &BatchSpec{Name: g.fresh("b")}
 				for d := 0; d < 3; d++ {
 					id := []byte(fmt.Sprintf("same-%d", d))
 					doc := DocSpec{ID: id, Plain: true}
 					doc.Fields = append(doc.Fields, FieldSpec{Kind: "fld", Name: "_id", Typ: 't', Stored: true, Len: 1, Val: id, Toks: []TokSpec{{Term: id, Freq: 1}}})
 					doc.Fields = append(doc.Fields, FieldSpec{Kind: "fld", Name: "body", Typ: 't', Stored: true, DV: true, Len: 2, Val: []byte(w),
-						Toks: []TokSpec{{Term: []byte(w), Freq: 1, Locs: []LocSpec{{Pos: 1, Start: 0, End: 5}}}, {Term: []byte([]string{"blue", "pink"}[k]), Freq: 1}}})
+						Toks: []TokSpec{{Term: []byte(w), Freq: 1, Locs: []LocSpec{{Pos: 1, Start: 0, End: 5}}}, {Term: []byte([]string{"blue", "clue"}[k]), Freq: 1}}})
 					b.Docs = append(b.Docs, doc)
 				}
 				g.emitBatch(b)
@@ -1015,6 +1016,7 @@ func (g *Gen) genC04(n int) error {
 			g.dumpAll(o1)
 			g.emit("close %s", o1)
 			g.emit("persist %s %s keep=1", sg[1], f)
+			g.emit("q samesize %s %s", sg[0], sg[1])
 			w := g.fresh("w")
 			g.emit("writeto %s %s", sg[1], w)
 			g.emit("cmpfile %s %s", f, w)
@@ -1490,6 +1492,17 @@ func (g *Gen) genMerge(prop string, n int) error {
 		}
 		if prop == "C05" && i%60 == 17 {
 			g.distinctMergesAtOnce()
+			g.st("case")
+			continue
+		}
+		if prop == "C05" && i%60 == 29 {
+			g.oddMiddleInputCase()
+			g.st("case")
+			continue
+		}
+		if prop == "C06" && i%100 == 23 {
+			// more than 128 fields, merged by copying and by re-encoding (locations that name field 127)
+			g.wideSchemaCase(true)
 			g.st("case")
 			continue
 		}
@@ -2397,4 +2410,59 @@ func (g *Gen) trailingEmptyDvChunkCase() {
 	g.emit("close %s", a)
 	g.emit("close %s", bg)
 	g.st("dv.trailingempty")
+}
+
+// oddMiddleInputCase: three and four inputs of which the first and the last have the same field list
+// and one in the middle another one (a field more, a field less, other names), nothing deleted: the
+// stored fields of every survivor come back under their own field names.
+func (g *Gen) oddMiddleInputCase() {
+	g.setMode()
+	mk := func(fields []string, nd int) string {
+		b := &BatchSpec{Name: g.fresh("b")}
+		for d := 0; d < nd; d++ {
+			id := []byte(fmt.Sprintf("%s-%d", b.Name, d))
+			doc := DocSpec{ID: id, Plain: true}
+			doc.Fields = append(doc.Fields, FieldSpec{Kind: "fld", Name: "_id", Typ: 't', Stored: true, Len: 1, Val: id, Toks: []TokSpec{{Term: id, Freq: 1}}})
+			for _, fn := range fields {
+				doc.Fields = append(doc.Fields, FieldSpec{Kind: "fld", Name: fn, Typ: 't', Stored: true, Len: 1, Val: []byte(fn + "-of-" + string(id)),
+					Toks: []TokSpec{{Term: []byte(fn), Freq: 1, Locs: []LocSpec{{Pos: 1, Start: 0, End: len(fn)}}}}})
+			}
+			b.Docs = append(b.Docs, doc)
+		}
+		g.emitBatch(b)
+		s := g.fresh("s")
+		g.emit("build %s %s", s, b.Name)
+		g.newBuilt(s, b)
+		return s
+	}
+	a1 := mk([]string{"colour", "shape", "weight"}, 2)
+	a2 := mk([]string{"colour", "shape", "weight"}, 3)
+	more := mk([]string{"age", "colour", "shape", "weight"}, 2)
+	less := mk([]string{"colour", "weight"}, 2)
+	other := mk([]string{"colour", "size", "weight"}, 2)
+	for _, segs := range [][]string{{a1, more, a2}, {a1, less, a2}, {a1, other, a2}, {a1, other, less, a2}, {more, a1, a2, more}} {
+		drops := make([]string, len(segs))
+		for k := range drops {
+			drops[k] = []string{"nil", "-"}[k%2]
+		}
+		f := g.fresh("f")
+		g.emit("merge %s segs=%s drops=%s", f, strList(segs), strings.Join(drops, "|"))
+		m := g.fresh("m")
+		g.emit("open %s %s", m, f)
+		u := newUniverse()
+		n := 0
+		for _, sg := range segs {
+			u.union(g.univ[sg], 0)
+			n += g.ndocs[sg]
+		}
+		g.univ[m] = u
+		g.ndocs[m] = n
+		g.lineage[m] = map[string]bool{m: true}
+		g.emit("q count %s", m)
+		g.emit("q fields %s", m)
+		g.dumpStored(m)
+		g.emit("q post %s weight %s ex=nil fl=111 ops=%s", m, hx([]byte("weight")), g.nexts(n+1))
+		g.emit("close %s", m)
+	}
+	g.st("merge.oddmiddle")
 }
